@@ -1095,6 +1095,10 @@ class tzstr(tzrange):
         if res is None or res.any_unused_tokens:
             raise ValueError("unknown string format")
 
+        # The name of standard time is alphabetic (an empty string is UTC)
+        if res.stdabbr and not res.stdabbr.isalpha():
+            raise ValueError("unknown string format")
+
         # Here we break the compatibility with the TZ variable handling.
         # GMT-3 actually *means* the timezone -3.
         if res.stdabbr in ("GMT", "UTC") and not posix_offset:
